@@ -110,20 +110,21 @@ def _depth_name(ds):
     return str(ds.ems.depth_coordinate.name)
 
 
-def _flip_positive(ds):
-    name = _depth_name(ds)
+def _flip_positive(ds, truth):
+    # (the name comes from the builder, not from the convention: an edit must not touch the object's caches)
+    name = [n for n in truth.depth_names if n in ds.variables][0]
     ds[name].attrs['positive'] = 'down' if str(ds[name].attrs.get('positive', 'up')).lower() == 'up' else 'up'
 
 
-def _replace_temp(ds):
+def _replace_temp(ds, truth):
     ds['temp'] = ds['temp'] + 100
 
 
-def _add_variable(ds):
+def _add_variable(ds, truth):
     ds['speed'] = ds['eta'] * 2
 
 
-def _write_values(ds):
+def _write_values(ds, truth):
     ds['botz'].values[...] = ds['botz'].values + 1
 
 
@@ -262,7 +263,7 @@ def cases_for(prop: str, tier: str) -> list[dict]:
         for first in OPS:
             if spec.get('explicit_names') and OPS[first][0] == 'transform' and first != 'pickle':
                 continue    # datasets derived from a hand-bound one are detected afresh: another dataset altogether
-            out.append({'part': 'sequence', 'spec': spec, 'first': first, 'depth': 2 if tier == 'quick' else 3})
+            out.append({'part': 'sequence', 'spec': spec, 'first': first, 'depth': 'edits' if tier == 'quick' else 3})
     return out
 
 
@@ -282,15 +283,20 @@ def _observe(fn, ds):
 
 def _clean_state(spec, prefix):
     """A dataset that has been through the mutations and transforms of `prefix`, never queried."""
-    ds, _ = builders.build(spec)
+    ds, truth = builders.build(spec)
     for label in prefix:
         kind, _, fn = OPS[label]
         if kind == 'mutate':
-            fn(ds)
+            fn(ds, truth)
         elif kind == 'transform':
             # a convention bound by hand stays with its dataset object: no copy then (the only transform
             # explored for such datasets is the pickle round trip, which does not touch its input)
-            ds = fn(ds if spec.get('explicit_names') else ds.copy(deep=True))
+            if spec.get('explicit_names'):
+                ds = fn(ds)
+            else:
+                # ... and the result is copied as well, so that nothing a transform may have attached to its result
+                # (a convention object, caches) is part of the clean state: it is detected afresh
+                ds = fn(ds.copy(deep=True)).copy(deep=True)
     return ds
 
 
@@ -298,12 +304,14 @@ def run_case(prop: str, case: dict, rec) -> None:
     spec = case['spec']
     own = queries_of(prop)
     fp = f"{prop}/sequence/{spec['family']}"
-    middles = [()] if case['depth'] == 2 else [()] + [(m,) for m in OPS
-                                                      if not (spec.get('explicit_names') and OPS[m][0] == 'transform' and m != 'pickle')]
+    # quick: nothing or one of the in-place edits in the middle (touch, edit, ask); thorough: any operation
+    middles = [()] + [(m,) for m in OPS
+                      if (case['depth'] != 'edits' or OPS[m][0] == 'mutate')
+                      and not (spec.get('explicit_names') and OPS[m][0] == 'transform' and m != 'pickle')]
     for middle in middles:
         prefix = (case['first'],) + middle
         # apply the prefix to the one used object
-        used, _ = builders.build(spec)
+        used, truth = builders.build(spec)
         usable = True
         done = []
         for label in prefix:
@@ -311,6 +319,8 @@ def run_case(prop: str, case: dict, rec) -> None:
             try:
                 if kind == 'transform':
                     used = fn(used)
+                elif kind == 'mutate':
+                    fn(used, truth)
                 else:
                     fn(used)
             except Exception:  # noqa: BLE001
